@@ -1,6 +1,7 @@
 import DoltVerif.Lemmas.BinlogCells
 import DoltVerif.Lemmas.BinlogRows
 import DoltVerif.Lemmas.BinlogTime
+import DoltVerif.Lemmas.BinlogDecimalRT
 /-!
 C40 — Binlog events encode values the way MySQL replicas decode them.
 
@@ -11,13 +12,16 @@ byte + metadata of the TableMap event).  Helper lemmas live in `Lemmas/Binlog*.l
 
 PROVED here, for all values of the column's domain and any continuation `r` (framing):
 integers (all widths/signs), FLOAT/DOUBLE bit patterns, YEAR (0000 and 1901‥2155), DATE, DATETIME(0‥6),
-TIMESTAMP(0‥6), TIME, BIT(1‥64), ENUM, SET(1‥64), VARCHAR/VARBINARY, CHAR/BINARY (incl. the 10-bit
+TIMESTAMP(0‥6), TIME, DECIMAL, BIT(1‥64), ENUM, SET(1‥64), VARCHAR/VARBINARY, CHAR/BINARY (incl. the 10-bit
 length metadata), all BLOB/TEXT sizes, the JSON/GEOMETRY length prefix; the NULL bitmap for any
 column count; unique parseability of a whole row image.
 REFUTED (witnesses below, each replayed on the real code by the harness): negative TIME with a
 fraction and seconds = 59, DECIMAL(p,p).  (YEAR 0000 and JSON key lengths ≥ 256 were refuted in the
 first round and are repaired in /repo: e60c6b5, 22b8e06; both are now part of the proved statement.)
-TIME (all values except the refuted seconds = 59 carry point) is proved too (`Lemmas/BinlogTime`).
+TIME (all values except the refuted seconds = 59 carry point, `Lemmas/BinlogTime`) and DECIMAL(p,s)
+for every 1 ≤ p ≤ 65, s ≤ 30, s < p (`Lemmas/BinlogDecimal*`: digit groups of nine, leftover
+groups, sign-bit flip, inversion of negative values) are proved too.  Only binary JSON bodies remain
+compared-not-proved.
 -/
 namespace DoltVerif.C40
 open DoltVerif.Binlog
@@ -28,9 +32,10 @@ instance {ε α : Type} [DecidableEq ε] [DecidableEq α] : DecidableEq (Except 
   | .ok _, .error _ => isFalse (fun e => by cases e)
   | .error _, .ok _ => isFalse (fun e => by cases e)
 
-/-- column types whose round trip is proved in this file -/
+/-- column types whose round trip is proved in this file: all of them, DECIMAL with at least one
+integer digit -/
 def Proved : ColType → Prop
-  | .decimal _ _ => False
+  | .decimal p s => s < p     -- DECIMAL(p,p) is the refuted point (`decimal_p_eq_s_witness`)
   | _ => True
 
 /-- a stored value of the column's domain (YEAR 0000 included since /repo e60c6b5) that is not the
@@ -54,7 +59,13 @@ theorem decode_encode_partial (t : ColType) (c : Cell) (hp : Proved t) (hg : Goo
     simp [encode, inDomain, hd] at he
     subst he
     exact decode_time us r hd (hgt us rfl rfl)
-  | decimal p s => exact absurd hp id
+  | decimal p s =>
+    cases c <;> simp [inDomain] at hd
+    rename_i neg u
+    simp only [encode, inDomain, hd, decide_true, Bool.not_true, Bool.false_eq_true, if_false] at he
+    obtain ⟨h1, h2, h3, _, h5⟩ := hd
+    have := decode_decimal p s neg u b r h1 h2 h3 hp h5 he
+    simpa [colMeta, signedOf, tNewDecimal] using this
   | int w sg =>
     cases c <;> simp [inDomain] at hd
     rename_i v
@@ -159,6 +170,9 @@ example : Good (.int .w3 true) (.int (-8388608)) ∧ Proved (.int .w3 true) :=
 example : Good (.datetime 3) (.datetime 9999 12 31 23 59 59 999000) := ⟨by decide, fun _ h => by cases h⟩
 example : Good (.varchar 300) (.bytes [1, 2, 3]) := ⟨by decide, fun _ h => by cases h⟩
 example : Good .year (.int 0) ∧ encode .year (.int 0) = .ok [0] := ⟨⟨by decide, fun _ h => by cases h⟩, by decide⟩
+/-- DECIMAL(65,30), all nines, negative: in the proved domain -/
+example : Good (.decimal 65 30) (.decimal true (10 ^ 65 - 1)) ∧ Proved (.decimal 65 30) :=
+  ⟨⟨by decide, fun _ h => by cases h⟩, show 30 < 65 by decide⟩
 /-- a negative fractional TIME with seconds = 58 is `Good` (only seconds = 59 is excluded) -/
 example : Good .time (.time (-58500000)) :=
   ⟨by decide, fun us _ h => by cases h; decide⟩
@@ -172,12 +186,15 @@ def decode_encode_full : Prop :=
 def serializable_full : Prop :=
   ∀ (t : ColType) (c : Cell), inDomain t c = true → ∃ b, encode t c = .ok b
 
-/-- the NEWDECIMAL round trip away from the defect point (the two decoders and the stored value are
-compared on every harness run) -/
-def decimal_roundtrip_full : Prop :=
-  (∀ (p s : Nat) (neg : Bool) (u : Nat) (b r : Bytes), inDomain (.decimal p s) (.decimal neg u) = true → s < p →
-      encDecimal p s neg u = .ok b →
-      decodeCell false tNewDecimal (colMeta (.decimal p s)).2 (b ++ r) = some (.decimal neg u, r))
+/-- every value of a proved column type is serializable (no serializer error) -/
+theorem serializable_partial (p s : Nat) (neg : Bool) (u : Nat) (hs : s < p)
+    (hd : inDomain (.decimal p s) (.decimal neg u) = true) :
+    ∃ b, encode (.decimal p s) (.decimal neg u) = .ok b := by
+  have hd' := hd
+  simp [inDomain] at hd'
+  refine ⟨decimalSign neg (bufOf p s u), ?_⟩
+  simp only [encode, hd, Bool.not_true, Bool.false_eq_true, if_false]
+  exact encDecimal_eq p s neg u hs hd'.2.2.2.2
 
 /-- WITNESS 1 (TIME '-00:00:59.5'): the seconds carry makes a replica read '-00:00:63.5'. -/
 theorem time_seconds_carry_witness :
